@@ -690,6 +690,18 @@ func (e *FnEnc) opaqueCall(cc *ssa.CallCommon, args []Val, resT types.Type, name
 					pv.T = mi.X.Type()
 					e.havocArg(pv)
 				}
+				// a struct VALUE boxed into an interface (sort.Sort(sorter{list})): the callee works on a copy of
+				// the struct but reaches the slices, maps and objects its fields refer to
+				if st, isStruct := mi.X.Type().Underlying().(*types.Struct); isStruct {
+					sv := e.val(mi.X)
+					for i := 0; i < st.NumFields(); i++ {
+						lo, hi := e.sorter.fieldRange(st, i)
+						if lo < 0 || hi > len(sv.L) || lo >= hi {
+							continue
+						}
+						e.havocArg(Val{T: st.Field(i).Type(), L: sv.L[lo:hi]})
+					}
+				}
 			}
 		}
 	default:
@@ -724,6 +736,18 @@ func (e *FnEnc) havocArg(a Val) {
 			e.note("large struct passed to external callee: all its fields havocked")
 		}
 		e.havocTargets(e.objTargets(a.L[0], t.Elem()))
+	case *types.Struct:
+		// a struct passed by value: what its fields refer to
+		for i := 0; i < t.NumFields(); i++ {
+			lo, hi := e.sorter.fieldRange(t, i)
+			if lo < 0 || hi > len(a.L) || lo >= hi {
+				continue
+			}
+			if _, nested := t.Field(i).Type().Underlying().(*types.Struct); nested {
+				continue // one level is enough for the callers at hand (sorter values); deeper values are noted, not followed
+			}
+			e.havocArg(Val{T: t.Field(i).Type(), L: a.L[lo:hi]})
+		}
 	case *types.Map:
 		dn, ds := e.mapDom(t)
 		r := a.L[0]
